@@ -12,6 +12,7 @@ Oracle   (1) commutation: every admissible order renders the same snapshot; the 
 """
 from __future__ import annotations
 
+import itertools
 import json
 import sqlite3
 
@@ -162,6 +163,11 @@ def case_st(draw):
             if k and draw(st.integers(0, 3)) == 0:
                 extra.append(["where", [["lt", ["col", k, "b"], ["raw", 77]]]])
                 extra.append(["orderby", [["col", k, "c"]]])
+            if k and draw(st.integers(0, 3)) == 0:
+                # columns given by name: resolved against the first FROM item, so they stay after from_ (partial order) but commute with joins
+                extra.append(["orderby", [["py", "b"]]])
+                if draw(st.booleans()) and not any(s_[0] == "groupby" for s_ in p["steps"]):
+                    extra.append(["groupby", [["py", "a"]]])
         # set-operation creation stays a barrier; insert the extras before it
         cut = next((i for i, s in enumerate(p["steps"]) if s[0] in SETOPS), len(p["steps"]))
         p["steps"] = p["steps"][:cut] + extra + p["steps"][cut:]
@@ -444,6 +450,88 @@ def check(case):
     return out
 
 
+# ---- enumerated family: clauses of a set operation ------------------------------------------------------------------------
+
+SETOP_TAILS = [[]] + [list(x) for r in (1, 2, 3) for x in itertools.permutations(("orderby", "limit", "offset"), r)]
+
+
+def setop_cases():
+    for cls in CTXS:
+        for op in SETOPS:
+            for optail in (0, 1, 2):
+                for tail in SETOP_TAILS:
+                    yield {"family": "setop", "cls": cls, "op": op, "optail": optail, "tail": tail}
+
+
+def setop_program(case, tail):
+    src = {"T": ["tbl", "t", None, None], "U": ["tbl", "u", None, None]}
+    A = ["col", "T", "a"]
+    steps = [["from_", [["src", "T"]]], ["select", [A]]]
+    if case["optail"] >= 1:
+        steps.append(["orderby", [A]])
+    if case["optail"] >= 2:
+        steps.append(["limit", [["raw", 5]]])
+    other = {"cls": "inherit", "sources": {}, "steps": [["from_", [["src", "U"]]], ["select", [["col", "U", "a"]]]]}
+    steps.append([case["op"], [["q", other]]])
+    for m in tail:
+        steps.append({"orderby": ["orderby", [A]], "limit": ["limit", [["raw", 7]]], "offset": ["offset", [["raw", 2]]]}[m])
+    return {"cls": case["cls"], "sources": src, "steps": steps}
+
+
+def setop_tail_words(cls, sql):
+    words = depth0_words(lex.lex(sql, cls))
+    idx = [i for i, w in enumerate(words) if w in ("UNION", "INTERSECT", "EXCEPT", "MINUS")]
+    return words[idx[-1] + 1:] if idx else None
+
+
+def check_setop(case):
+    cls = case["cls"]
+    out = []
+    canon = sorted(case["tail"], key=("orderby", "limit", "offset").index)
+    try:
+        s1 = prog.render(prog.build_program(setop_program(case, case["tail"])), cls)
+        s0 = prog.render(prog.build_program(setop_program(case, canon)), cls)
+        s_str = str(prog.build_program(setop_program(case, case["tail"])))
+    except Exception as e:
+        return [(mksig("setop", cls, "raises", type(e).__name__), repr(e))]
+    if s1 != s0:
+        out.append((mksig("order", "setop", "/".join(sorted(case["tail"]))), "the tail calls %r and %r give %r vs %r" % (case["tail"], canon, s1, s0))) 
+    if s_str != s1:
+        out.append((mksig("setop", "entry_points"), "str() gives %r, get_sql(ctx) %r" % (s_str, s1)))
+    toks = lex.lex(s1, cls)
+    if any(t.kind == "bad" for t in toks) or not lex.balanced(toks):
+        out.append((mksig("wellformed", "any", "unbalanced", "setop"), s1))
+        return out
+    tail = setop_tail_words(cls, s1)
+    if tail is None:
+        out.append((mksig("wellformed", cls, "setop_keyword_missing"), s1))
+        return out
+    # the last operand has no clauses of its own, so every ORDER / LIMIT / OFFSET / FETCH after it belongs to the set operation
+    want = []
+    L, O = "limit" in case["tail"], "offset" in case["tail"]
+    if "orderby" in case["tail"] or (cls == "mssql" and (L or O)):
+        want.append("ORDER")
+    if cls in ("mssql", "oracle"):
+        if O or (cls == "mssql" and L):
+            want.append("OFFSET")
+        if L:
+            want.append("FETCH")
+    else:
+        if L or (O and cls in ("mysql", "sqlite")):
+            want.append("LIMIT")
+        if O:
+            want.append("OFFSET")
+    got = [w for w in tail if w in ("ORDER", "LIMIT", "OFFSET", "FETCH")]
+    if got != want:
+        kind = "repeated_clause" if len(set(got)) < len(got) else ("clause_order" if sorted(got) == sorted(want) else "clause_set")
+        out.append((mksig("wellformed", cls, kind, "setop_tail"), "%s tail calls %r render the clauses %r (expected %r): %r" % (cls, case["tail"], got, want, s1)))
+    if cls == "sqlite" and case["optail"] == 0 and case["op"] != "minus":
+        msg = sqlite_parse(s1)
+        if msg:
+            out.append((mksig("sqlite_parser", "setop", _near(msg)), "%s: %r" % (msg, s1)))
+    return out
+
+
 def _clause_pair(detail):
     parts = detail.split(" in ")[0].split()
     return "_".join(p for p in parts if p.isupper())[:40]
@@ -458,13 +546,19 @@ def _near(msg):
 
 
 def check_case(case):
+    if case.get("family") == "setop":
+        return check_setop(case)
     return check(case)
 
 
 def valid_case(case):
     try:
+        if case.get("family") == "setop":
+            return case["cls"] in CTXS and case["op"] in SETOPS and case["optail"] in (0, 1, 2) and case["tail"] in SETOP_TAILS
         p = case["program"]
         n = len(p["steps"])
+        if '["tbl", null' in json.dumps(p) or '"tbl", ""' in json.dumps(p):
+            return False  # a table without a name is outside the input domain
         prog.build_program(p)
         return p["cls"] in CTXS and all(sorted(o) == list(range(n)) for o in case["orders"]) and all(all(0 <= i < n for i in k) and sorted(set(k)) == k for k in case["subsets"]) and \
             all(_admissible(p["steps"], o) for o in case["orders"])
@@ -488,12 +582,19 @@ def nontrivial(case):
 
 def shards(tier, sd):
     n = 8 if tier == "quick" else 32
-    return [(tier, sd * 1000 + k) for k in range(n)]
+    return [(tier, sd * 1000 + k) for k in range(n)] + [("setop", 0)]
 
 
 def run_shard(shard):
     tier, sd = shard
     col = Collector()
+    if tier == "setop":
+        for case in setop_cases():
+            col.case(case, bool(case["tail"]), classes=("family:setop", "cls:" + case["cls"]))
+            for sig, detail in check_setop(case):
+                col.violation(sig, case, detail)
+        col.notes["setop_family"] = "enumerated completely"
+        return col
     nex = 250 if tier == "quick" else 3000
 
     @seed(sd)
